@@ -15,6 +15,12 @@ let int_of_n (x : n) : int = match x with N0 -> 0 | Npos p -> int_of_pos p
 let rec nat_of_int (i : int) : nat = if i = 0 then O else S (nat_of_int (i - 1))
 let int_of_nat (x : nat) : int =
   let rec go acc = function O -> acc | S k -> go (acc + 1) k in go 0 x
+let z_of_int (i : int) : z =
+  if i = 0 then Z0 else if i > 0 then Zpos (pos_of_int i) else Zneg (pos_of_int (- i))
+let int_of_z (x : z) : int =
+  match x with Z0 -> 0 | Zpos p -> int_of_pos p | Zneg p -> - (int_of_pos p)
+
+
 (* ---------- hex ---------- *)
 let hexval c =
   match c with
@@ -38,6 +44,25 @@ let hex_of_nl l = hex_of_bytes (List.map int_of_n l)
 let fnv_init = 0xcbf29ce484222325L
 let fnv_step (h : int64) (b : int) : int64 =
   Int64.mul (Int64.logxor h (Int64.of_int (b land 0xff))) 0x100000001b3L
+
+let fnv_i64 (h : int64) (v : int) : int64 =
+  let h = ref h in
+  for k = 0 to 7 do h := fnv_step !h ((v asr (8 * k)) land 0xff) done; !h
+
+(* proleptic Gregorian helpers used only to enumerate receive dates for block sweeps *)
+let is_leap_i y = (y mod 4 = 0) && ((y mod 100 <> 0) || (y mod 400 = 0))
+let year_len_i y = if is_leap_i y then 366 else 365
+(* (year, ordinal) + offset days, for small offsets *)
+let rec add_days (y, o) off =
+  let o' = o + off in
+  if o' < 1 then add_days (y - 1, o' + year_len_i (y - 1)) 0
+  else if o' > year_len_i y then add_days (y + 1, o' - year_len_i y) 0
+  else (y, o')
+
+let issue_val doy h m ry ro : int =
+  match calculate_issue_time (z_of_int doy) (z_of_int h) (z_of_int m) (z_of_int ry) (z_of_int ro) with
+  | None -> -1
+  | Some t -> int_of_z t
 
 let err_str (e : decode_err) =
   match e with UnrecognizedPrefix -> "U" | NotAscii -> "A" | Malformed -> "M"
@@ -114,6 +139,23 @@ let handle (line : string) : string =
   | [ "msgstr"; s ] -> msg_result_str (message_try_from_str (nl_of_hex s))
   | [ "msgbytes"; s; e; c ] ->
     msg_result_str (message_try_from_bytes (nl_of_hex s) (nl_of_hex e) (nl_of_hex c))
+  | [ "issue"; j; h; m; ry; ro ] ->
+    let v = issue_val (int_of_string j) (int_of_string h) (int_of_string m) (int_of_string ry) (int_of_string ro) in
+    if v = -1 then "err" else string_of_int v
+  | [ "issueblock"; yi; h; m ] ->
+    (* every ordinal of issue year yi x receive offset -90..+90 days *)
+    let yi = int_of_string yi and h = int_of_string h and m = int_of_string m in
+    let hh = ref fnv_init in
+    for oi = 1 to year_len_i yi do
+      for off = -90 to 90 do
+        let (ry, ro) = add_days (yi, oi) off in
+        hh := fnv_i64 !hh (issue_val oi h m ry ro)
+      done
+    done;
+    Printf.sprintf "%016Lx" !hh
+  | [ "expired"; j; h; m; dh; dm; ry; ro; sod; ns ] ->
+    let zi x = z_of_int (int_of_string x) in
+    if is_expired_at (zi j) (zi h) (zi m) (zi dh) (zi dm) (zi ry) (zi ro) (zi sod) (zi ns) then "1" else "0"
   | [ "utf8"; s ] -> if valid_utf8 (nl_of_hex s) then "1" else "0"
   | _ -> Driver_ext.handle toks
 
